@@ -32,8 +32,8 @@ enum Fault {
     XmlCut(usize),
     /// listing: one object's Size replaced
     BadSize(String),
-    /// listing: one object's LastModified replaced
-    BadLastModified,
+    /// listing: the LastModified of the object at this index (modulo the page length) is replaced
+    BadLastModified(usize),
     /// listing: extra unknown elements, pretty printing
     ExtraElements,
     /// download: Last-Modified header missing or garbage
@@ -114,9 +114,10 @@ impl Backend for Bucket {
                             o.size = s.clone();
                         }
                     }
-                    Fault::BadLastModified => {
-                        if let Some(o) = objects.first_mut() {
-                            o.last_modified = "yesterday at noon".to_string();
+                    Fault::BadLastModified(i) => {
+                        let n = objects.len();
+                        if n > 0 {
+                            objects[*i % n].last_modified = "yesterday at noon".to_string();
                         }
                     }
                     _ => {}
@@ -285,7 +286,7 @@ fn draw_fault(tape: &mut Tape, listing: bool) -> Fault {
             2 => Fault::SendError,
             3 => Fault::XmlCut(tape.draw(3000) as usize),
             4 => Fault::BadSize(["12x", "twelve", "-1", "18446744073709551616", "1e3", " 7", "0x10"][tape.draw(7) as usize].to_string()),
-            5 => Fault::BadLastModified,
+            5 => Fault::BadLastModified(tape.draw(40) as usize),
             _ => Fault::ExtraElements,
         }
     } else {
@@ -523,7 +524,7 @@ impl Check for C17 {
                 Fault::BodyCut(_) => "body_cut",
                 Fault::XmlCut(_) => "xml_cut",
                 Fault::BadSize(_) => "bad_size",
-                Fault::BadLastModified => "bad_last_modified",
+                Fault::BadLastModified(_) => "bad_last_modified",
                 Fault::ExtraElements => "extra_elements",
                 Fault::BadLastModifiedHeader(_) => "bad_last_modified_header",
             };
@@ -534,7 +535,7 @@ impl Check for C17 {
                 Fault::BodyCut(_) => ctx.count("fault.body_cut"),
                 Fault::XmlCut(_) => ctx.count("fault.xml_cut"),
                 Fault::BadSize(_) => ctx.count("fault.bad_size"),
-                Fault::BadLastModified => ctx.count("fault.bad_last_modified"),
+                Fault::BadLastModified(_) => ctx.count("fault.bad_last_modified"),
                 Fault::ExtraElements => ctx.count("fault.extra_elements"),
                 Fault::BadLastModifiedHeader(_) => ctx.count("fault.bad_last_modified_header"),
             }
@@ -571,7 +572,7 @@ impl Check for C17 {
                         ctx.count("listing_1001");
                     }
                     match fault {
-                        Fault::None | Fault::ExtraElements | Fault::BadLastModified => {
+                        Fault::None | Fault::ExtraElements | Fault::BadLastModified(_) => {
                             if under.len() > page_max {
                                 ctx.count("truncated_archive_listing");
                                 if short.is_some() {
@@ -643,14 +644,18 @@ impl Check for C17 {
                         ctx.nontrivial = true;
                     }
                     match fault {
-                        Fault::None | Fault::ExtraElements | Fault::BadLastModified => {
+                        Fault::None | Fault::ExtraElements | Fault::BadLastModified(_) => {
                             match &r {
                                 Ok(got) => {
                                     let want: Vec<(String, String, usize, Option<i64>)> = under
                                         .iter()
                                         .enumerate()
                                         .map(|(i, (k, o))| {
-                                            let lm = if *fault == Fault::BadLastModified && i == 0 { None } else { Some(o.stamp_ms) };
+                                            let bad = match fault {
+                                                Fault::BadLastModified(j) => !under.is_empty() && *j % under.len() == i,
+                                                _ => false,
+                                            };
+                                            let lm = if bad { None } else { Some(o.stamp_ms) };
                                             (site.clone(), final_segment(k).to_string(), volume, lm)
                                         })
                                         .collect();
